@@ -140,7 +140,10 @@ Variable lvs : list lview.
 
 (* child lines are not top-level lines *)
 Definition not_top (k : nat) : Prop := exists lv, nth_error lvs k = Some lv /\ lv_top lv = false.
-Hypothesis Hviews : forall lv, In lv lvs -> Forall (rec_from not_top) (lv_recs lv).
+(* Pk: a property of the child lines that does not mention the views (has_parent lines) *)
+Variable Pk : nat -> Prop.
+Hypothesis HPk : forall k, Pk k -> not_top k.
+Hypothesis Hviews : forall lv, In lv lvs -> Forall (rec_from Pk) (lv_recs lv).
 
 Definition ev_lvl (e : event) : Prop :=
   match e with
@@ -150,10 +153,10 @@ Definition ev_lvl (e : event) : Prop :=
   end.
 
 Lemma sol_from_ind'' (P : solution -> Prop) :
-  (forall s, (forall t k s', In t (sol_decs s) -> In (k, s') (td_kids t) -> not_top k /\ sol_from not_top s' /\ P s') -> P s) ->
-  forall s, sol_from not_top s -> P s.
+  (forall s, (forall t k s', In t (sol_decs s) -> In (k, s') (td_kids t) -> Pk k /\ sol_from Pk s' /\ P s') -> P s) ->
+  forall s, sol_from Pk s -> P s.
 Proof.
-  intros Hstep. refine (fix F s (H : sol_from not_top s) {struct H} : P s := _).
+  intros Hstep. refine (fix F s (H : sol_from Pk s) {struct H} : P s := _).
   destruct H as [s Hk]. apply Hstep. intros t k s' H1 H2. destruct (Hk t k s' H1 H2) as (a & b). split; [exact a|]. split; [exact b|exact (F s' b)].
 Qed.
 
@@ -161,7 +164,7 @@ Lemma recon_go_lvl ind cont : forall ds toks first,
   (first = true -> exists k lv, nth_error lvs k = Some lv /\ hd_error (lv_gtoks lv) = hd_error toks
                                 /\ (lv_top lv = true -> ind = lv_level lv /\ cont = 0 /\ forall t ds' c, ds = t :: ds' -> td_dec t = WBreak c -> c = 0)) ->
   (forall t k s', In t ds -> In (k, s') (td_kids t) ->
-     not_top k /\ (forall lv', nth_error lvs k = Some lv' -> lv_top lv' = false -> Forall ev_lvl (recon_events lvs s' (lv_gtoks lv')))) ->
+     Pk k /\ (forall lv', nth_error lvs k = Some lv' -> lv_top lv' = false -> Forall ev_lvl (recon_events lvs s' (lv_gtoks lv')))) ->
   Forall ev_lvl (recon_go lvs ind cont ds toks first).
 Proof.
   induction ds as [|t ds IH]; intros toks first Hfirst Hkids; [constructor|].
@@ -169,15 +172,15 @@ Proof.
   - destruct (td_dec t) as [c|] eqn:Ed; [|exact I]. destruct first; [|exact I]. cbn [ev_lvl].
     destruct (Hfirst eq_refl) as (k & lv & Hk & Hh & Htop). exists k, lv. split; [exact Hk|]. split; [exact Hh|].
     intros Ht. destruct (Htop Ht) as (A & B & C). rewrite (C t ds c eq_refl Ed), B. split; [exact A|reflexivity].
-  - assert (Hk : forall k s', In (k, s') (td_kids t) -> not_top k /\ (forall lv', nth_error lvs k = Some lv' -> lv_top lv' = false -> Forall ev_lvl (recon_events lvs s' (lv_gtoks lv'))))
+  - assert (Hk : forall k s', In (k, s') (td_kids t) -> Pk k /\ (forall lv', nth_error lvs k = Some lv' -> lv_top lv' = false -> Forall ev_lvl (recon_events lvs s' (lv_gtoks lv'))))
       by (intros k s' H; apply (Hkids t k s'); [left; reflexivity|exact H]).
     clear Hkids IH Hfirst. induction (td_kids t) as [|[k s'] kr IHk]; [constructor|]. cbn [recon_kids fst snd]. apply Forall_app. split.
-    + destruct (Hk k s' (or_introl eq_refl)) as ((lv' & Hn & Ht) & Hev). unfold gtoks_of. rewrite Hn. exact (Hev lv' Hn Ht).
+    + destruct (Hk k s' (or_introl eq_refl)) as (HP & Hev). destruct (HPk k HP) as (lv' & Hn & Ht). unfold gtoks_of. rewrite Hn. exact (Hev lv' Hn Ht).
     + apply IHk. intros k2 s2 H. apply Hk. right; exact H.
   - apply IH; [discriminate|]. intros t0 k s' H1 H2. apply (Hkids t0 k s'); [right; exact H1|exact H2].
 Qed.
 
-Lemma recon_events_lvl_kid : forall s, sol_from not_top s ->
+Lemma recon_events_lvl_kid : forall s, sol_from Pk s ->
   forall k lv, nth_error lvs k = Some lv -> lv_top lv = false -> Forall ev_lvl (recon_events lvs s (lv_gtoks lv)).
 Proof.
   apply (sol_from_ind'' (fun s => forall k lv, nth_error lvs k = Some lv -> lv_top lv = false -> Forall ev_lvl (recon_events lvs s (lv_gtoks lv)))).
@@ -187,7 +190,7 @@ Proof.
 Qed.
 
 Theorem recon_events_lvl_top s k lv :
-  sol_from not_top s -> nth_error lvs k = Some lv -> sol_ws s = (lv_level lv, 0) ->
+  sol_from Pk s -> nth_error lvs k = Some lv -> sol_ws s = (lv_level lv, 0) ->
   (forall t ds' c, sol_decs s = t :: ds' -> td_dec t = WBreak c -> c = 0) ->
   Forall ev_lvl (recon_events lvs s (lv_gtoks lv)).
 Proof.
@@ -197,7 +200,7 @@ Proof.
   - intros t k' s' H1 H2. destruct (Hkids t k' s' H1 H2) as (A & B). split; [exact A|]. intros lv' Hn Hf. exact (recon_events_lvl_kid s' B k' lv' Hn Hf).
 Qed.
 
-Definition st_lvl (st : sst) : Prop := cache_ok not_top st /\ Forall ev_lvl (Dlog st).
+Definition st_lvl (st : sst) : Prop := cache_ok Pk st /\ Forall ev_lvl (Dlog st).
 
 Lemma first_dec_cont first inv c : first_dec first inv = WBreak c -> c = 0.
 Proof. destruct first as [|ll cb]; cbn [first_dec]; [destruct inv as [[]|]|]; intros H; try discriminate; injection H as <-; reflexivity. Qed.
@@ -206,7 +209,7 @@ Lemma format_top_lvl W fm depth st k lv : nth_error lvs k = Some lv -> st_lvl st
 Proof.
   intros Hk (Hc & Hl). unfold format_top. destruct (bid _); [split; assumption|].
   match goal with |- context [solve W lvs fm depth st lv ?ws ?fd] =>
-    pose proof (solve_kids W lvs fm not_top Hviews depth st lv ws fd (nth_error_In _ _ Hk) Hc) as (S1 & S2);
+    pose proof (solve_kids W lvs fm Pk Hviews depth st lv ws fd (nth_error_In _ _ Hk) Hc) as (S1 & S2);
     pose proof (state_inv_solve (fun st' => Dlog st' = Dlog st) (fun st0 l o H => H) (fun st0 k0 v H => H) (fun st0 H => H) W lvs fm depth st lv ws fd eq_refl) as S3;
     pose proof (solve_ws W lvs fm depth st lv ws fd) as S4;
     pose proof (solve_ok W lvs fm depth st lv ws fd) as S5;
@@ -246,22 +249,17 @@ Proof.
   rewrite Ht. destruct (ll_parent l); [reflexivity|congruence].
 Qed.
 
-Lemma mk_lviews_rec_not_top infos lines : forall lv, In lv (mk_lviews infos lines) -> Forall (rec_from (not_top (mk_lviews infos lines))) (lv_recs lv).
-Proof.
-  intros lv Hin. eapply Forall_impl; [|exact (mk_lviews_rec_from infos lines lv Hin)].
-  intros r Hr lc k Hk Hi. apply has_parent_not_top. exact (Hr lc k Hk Hi).
-Qed.
 
 (* a whole phase keeps: every first-token break in the log sits at the first token of a line, with (level, 0) if the line is a top-level line *)
 Theorem wrap_phase_levels W infos lines which st :
-  st_lvl (mk_lviews infos lines) st -> st_lvl (mk_lviews infos lines) (wrap_phase W infos lines which st).
+  st_lvl (mk_lviews infos lines) (has_parent lines) st -> st_lvl (mk_lviews infos lines) (has_parent lines) (wrap_phase W infos lines which st).
 Proof.
   intros Hst. unfold wrap_phase. set (lvs := mk_lviews infos lines) in *.
-  assert (Hgen : forall l i st0, (forall j lv, nth_error l j = Some lv -> nth_error lvs (i + j) = Some lv) -> st_lvl lvs st0 ->
-            st_lvl lvs (fold_left (fun st1 lv => if which lv then format_top W lvs (main_fuel W) (S (length lines)) st1 lv else st1) l st0)).
+  assert (Hgen : forall l i st0, (forall j lv, nth_error l j = Some lv -> nth_error lvs (i + j) = Some lv) -> st_lvl lvs (has_parent lines) st0 ->
+            st_lvl lvs (has_parent lines) (fold_left (fun st1 lv => if which lv then format_top W lvs (main_fuel W) (S (length lines)) st1 lv else st1) l st0)).
   { induction l as [|lv r IH]; intros i st0 Hin H0; [exact H0|]. cbn [fold_left]. apply (IH (S i)).
     - intros j lv' H'. replace (S i + j)%nat with (i + S j)%nat by lia. apply Hin. exact H'.
-    - destruct (which lv); [|exact H0]. apply (format_top_lvl lvs (mk_lviews_rec_not_top infos lines) W _ _ st0 i lv); [|exact H0].
+    - destruct (which lv); [|exact H0]. apply (format_top_lvl lvs (has_parent lines) (has_parent_not_top infos lines) (mk_lviews_rec_from infos lines) W _ _ st0 i lv); [|exact H0].
       specialize (Hin O lv eq_refl). rewrite PeanoNat.Nat.add_0_r in Hin. exact Hin. }
   apply (Hgen lvs O); [intros j lv H; exact H|exact Hst].
 Qed.
@@ -307,4 +305,68 @@ Proof.
   injection Hn as _ <-. cbn [f_ind f_cont f_sp f_nl]. repeat split; try lia; congruence.
 Qed.
 
-Print Assumptions olf_phase1_line_starts.
+
+(* ------------------------------------------------------------------ *)
+(* the condition on the lines, independent of the token table *)
+Definition starts_top (lines : list lline) (t : nat) (L : N) : Prop :=
+  forall k ln, nth_error lines k = Some ln -> hd_error (ll_toks ln) = Some t -> ll_parent ln = None /\ ll_type ln <> LLT_Eof /\ ll_level ln = L.
+
+Lemma starts_top_views infos lines t L : starts_top lines t L ->
+  forall k lv, nth_error (mk_lviews infos lines) k = Some lv -> hd_error (lv_gtoks lv) = Some (N.of_nat t) -> lv_top lv = true /\ lv_level lv = L.
+Proof.
+  intros H k lv Hk Hh. destruct (mk_lviews_nth infos lines k lv Hk) as (ln & Hl & _ & Hg & _ & Ht).
+  destruct (mk_lviews_level infos lines k lv Hk) as (ln' & Hl' & Hlev). rewrite Hl in Hl'. injection Hl' as <-.
+  assert (Hh' : hd_error (ll_toks ln) = Some t).
+  { rewrite Hg in Hh. destruct (ll_toks ln) as [|x r]; [discriminate|]. cbn [map hd_error] in *. injection Hh as Hh. apply Nnat.Nat2N.inj in Hh. subst. reflexivity. }
+  destruct (H k ln Hl Hh') as (Hp & Hty & HL). split; [|congruence].
+  rewrite Ht, Hp. unfold bid. destruct (ll_type ln); try reflexivity. congruence.
+Qed.
+
+Corollary olf_phase1_line_starts_lines rs W lines l t tok f ds ind cont L :
+  nth_error (fst (fst (olf_model rs W false lines l))) t = Some (tok, f) ->
+  decs_for t (plan_of_events (rev (ss_log (wrap_phase1 W (map tokinfo_of l) lines)))) = ds ++ [DBreak true ind cont] ->
+  starts_top lines t L ->
+  f_ind f = L /\ f_cont f = 0 /\ f_sp f = 0 /\ 1 <= f_nl f <= 2.
+Proof.
+  intros Hn Hd Hs. pose proof (olf_phase1_line_starts rs W lines l t tok f ds ind cont L) as H. cbv zeta in H.
+  apply H; [exact Hn|exact Hd|]. apply starts_top_views. exact Hs.
+Qed.
+
+(* ------------------------------------------------------------------ *)
+(* child lines: the whitespace a child line is searched with is what its ChildLineOption carries *)
+Definition option_ws (ws : N * N) (sc : N) (opt : clopt) : Prop :=
+  opt = CO_ContinueAll
+  \/ opt = CO_BreakAll (fst ws) (snd ws + sc) 0 \/ opt = CO_BreakAll (fst ws) (snd ws) 1 \/ opt = CO_BreakAll (fst ws) (snd ws) 0
+  \/ opt = CO_ContinueThenBreak (fst ws) (snd ws) 1.
+
+(* the options of child_lines_solutions (Proofs/WrapSimProofs.v: cls_options):
+     BreakAll(child_starting_ws)       = the parent's indentation, its continuations + the continuations of the parent token
+                                         (anonymous routine bodies, variant-record fields, `else` with another statement, default)
+     BreakAll(parent_base_ws), deindent 1 = the parent's own whitespace (`then begin`, `else begin`, `A: begin` broken before `begin`)
+     BreakAll(parent_indented_ws)      = the parent's whitespace, one level deeper (`then`/`do`/`:` with a simple statement; `else if` that must break)
+     ContinueThenBreak(parent_base_ws) = the first child line continues, the others at the parent's whitespace (`else if`, `then begin`)
+     ContinueAll                       = every child line continues the parent's line (whitespace (0, 0), never used for a break) *)
+From PasfmtVerif Require Import Proofs.WrapSimProofs.
+
+Lemma cls_options_ws bbb lvs stk d nli ws lc fc sc : Forall (option_ws ws sc) (cls_options bbb lvs stk d nli ws lc fc sc).
+Proof.
+  unfold cls_options.
+  repeat match goal with |- context [match ?x with _ => _ end] => destruct x end;
+    repeat apply Forall_cons; try apply Forall_nil; unfold option_ws; cbn [fst snd];
+    first [left; reflexivity | right; left; reflexivity | right; right; left; reflexivity
+          | right; right; right; left; reflexivity | right; right; right; right; reflexivity].
+Qed.
+
+(* a child line is searched at (indentations of the option + its own level - deindent, continuations of the option) *)
+Lemma solve_children_ws W lvs fm d opt base deind : forall kids st first lll acc st' l,
+  (forall k s', In (k, s') acc -> exists lv, nth_error lvs k = Some lv /\ sol_ws s' = (fst base + lv_level lv - deind, snd base)) ->
+  solve_children lvs (solve W lvs fm d) st opt base deind kids first lll acc = (st', Some l) ->
+  forall k s', In (k, s') l -> exists lv, nth_error lvs k = Some lv /\ sol_ws s' = (fst base + lv_level lv - deind, snd base).
+Proof.
+  induction kids as [|k rest IH]; intros st first lll acc st' l Hacc E; cbn [solve_children] in E.
+  - injection E as _ <-. intros k s' H. apply in_rev in H. exact (Hacc k s' H).
+  - destruct (nth_error lvs k) as [lv|] eqn:Ek; [|discriminate].
+    match type of E with context [solve W lvs fm d st lv ?ws ?fd] => pose proof (solve_ws W lvs fm d st lv ws fd) as Hw; destruct (solve W lvs fm d st lv ws fd) as [st1 r] end.
+    destruct r as [s|]; [|discriminate]. refine (IH _ _ _ _ _ _ _ E).
+    intros k0 s0 [H|H]; [injection H as <- <-; exists lv; split; [exact Ek|exact (Hw st1 s eq_refl)]|exact (Hacc k0 s0 H)].
+Qed.
